@@ -88,3 +88,24 @@ func findPrimaryIndex(body *Expr, v string) (prim, sl, off *Expr) {
 	}
 	return
 }
+
+// bitwise operators on mathematical integers (int mode): uninterpreted functions shared by code and specs
+func (g *Gen) needBitFns() {
+	if g.prelSeen["bitfns"] {
+		return
+	}
+	g.prelSeen["bitfns"] = true
+	g.prel = append(g.prel, "(declare-fun bitand (Int Int) Int)", "(declare-fun bitor (Int Int) Int)", "(declare-fun bitxor (Int Int) Int)")
+	g.assumptions["int mode: &, |, ^ on integers are the (uninterpreted) bitwise functions of the infinite two's-complement representation; machine operations on in-range operands coincide with them"] = true
+}
+
+// pow2(n) = 2^n as an uninterpreted function with its basic facts (int mode)
+func (g *Gen) needPow2() {
+	if g.prelSeen["pow2"] {
+		return
+	}
+	g.prelSeen["pow2"] = true
+	g.prel = append(g.prel, "(declare-fun pow2 (Int) Int)")
+	g.assumeAlways("(forall ((n Int)) (! (=> (>= n 0) (>= (pow2 n) 1)) :pattern ((pow2 n))))")
+	g.assumeAlways("(and (= (pow2 0) 1) (= (pow2 1) 2) (= (pow2 8) 256) (= (pow2 63) 9223372036854775808) (= (pow2 64) 18446744073709551616))")
+}
